@@ -1,7 +1,7 @@
 (* runner entry for the driver model *)
 From Coq Require Import List NArith ZArith Bool String.
 Import ListNotations.
-From Indi Require Import Base.Sx Msg.Equality Msg.Model Msg.Run Num.Model Num.Run Driver.Model.
+From Indi Require Import Base.Sx Msg.Equality Msg.Model Msg.Codec Msg.Run Num.Model Num.Run Driver.Model Generated.RegistryData.
 
 Definition dec_fval (x : sx) : option fval :=
   match x with
@@ -123,13 +123,17 @@ Definition enc_vec_state (v : vec) : sx :=
 Definition enc_dev_state (d : dev) : sx :=
   of_list (fun g => SL [SA (g_key g); of_bool (g_enabled g); of_list enc_vec_state (g_vecs g)]) (d_groups d).
 
-(* (dev ops) -> (traces per op) (final state) *)
+(* is every published message of a trace constructible (premise of C03 element_roundtrip)? *)
+Definition trace_wfb (tr : list outev) : bool :=
+  forallb (fun o => match o with Publish m => wfb live_registry m | _ => true end) tr.
+
+(* (dev ops) -> (traces per op) (final state) (all published messages wfb?) *)
 Definition run_driver (x : sx) : sx :=
   match x with
   | SL [d; ops] =>
       match dec_dev d, as_list_of dec_dop ops with
       | Some d, Some ops => let (d', trs) := run d ops in
-                            SL [of_list (of_list enc_outev) trs; enc_dev_state d']
+                            SL [of_list (of_list enc_outev) trs; enc_dev_state d'; of_bool (forallb trace_wfb trs)]
       | _, _ => bad_input
       end
   | _ => bad_input
